@@ -188,7 +188,7 @@ pub open spec fn hev1_at(d: Seq<u8>, q: int, b: Hev1Box) -> bool {
     &&& b.width == be16(d, q + 24) && b.height == be16(d, q + 26)
     &&& b.horizresolution.0.numer == be32(d, q + 28) && b.vertresolution.0.numer == be32(d, q + 32)
     &&& b.frame_count == be16(d, q + 40) && b.depth == be16(d, q + 74)
-    &&& child_name(d, q + 78) == BoxType::HvcCBox && hvcc_head_at(d, child_q(d, q + 78), b.hvcc)
+    &&& child_name(d, q + 78) == BoxType::HvcCBox && hvcc_head_at(d, child_q(d, q + 78), b.hvcc) && hvcc_arrays_at(d, child_q(d, q + 78), b.hvcc)
 }
 
 /// 3GPP timed text sample entry 'tx3g' (3GPP TS 26.245 5.16) whose body starts at q
